@@ -4,13 +4,30 @@
 package main
 
 import (
+	"os"
+	"runtime/debug"
+	"runtime/pprof"
+
 	"verif/harness/internal/mempool"
 	"verif/harness/internal/vrun"
 )
 
 func main() {
+	// every replayed path opens a fresh ffldb/leveldb instance whose 4 MiB write
+	// buffers dominate allocation; a lazier collector avoids re-faulting them
+	debug.SetGCPercent(800)
+	stop := func() {}
+	if p := os.Getenv("VERIF_CPUPROFILE"); p != "" {
+		if f, err := os.Create(p); err == nil {
+			pprof.StartCPUProfile(f)
+			stop = func() { pprof.StopCPUProfile(); f.Close() }
+		}
+	}
+	wrap := func(run func(*vrun.Ctx) error) func(*vrun.Ctx) error {
+		return func(c *vrun.Ctx) error { defer stop(); return run(c) }
+	}
 	vrun.Main(map[string]vrun.Check{
-		"C10": {Level: "model_checking", Run: mempool.RunC10},
-		"C12": {Level: "model_checking", Run: mempool.RunC12},
+		"C10": {Level: "model_checking", Run: wrap(mempool.RunC10)},
+		"C12": {Level: "model_checking", Run: wrap(mempool.RunC12)},
 	})
 }
